@@ -107,6 +107,29 @@ def weyl_distance(a, b) -> float:
     return float(np.min(np.max(np.abs(img - b), axis=-1)))
 
 
+class ReferenceUnavailable(Exception):
+    """The numpy reference itself could not be evaluated (LAPACK non-convergence); callers reject the case."""
+
+
+def _normal_eigvals(m: np.ndarray) -> np.ndarray:
+    """Eigenvalues of a symmetric unitary matrix.  LAPACK's zgeev occasionally reports non-convergence on exactly
+    (block-)diagonal inputs; fall back to the real symmetric eigensolver on a generic combination of the commuting
+    real and imaginary parts, and give up (ReferenceUnavailable) if that does not diagonalise m."""
+    try:
+        return np.linalg.eigvals(m)
+    except np.linalg.LinAlgError:
+        pass
+    try:
+        for c in (math.sqrt(2.0), 0.37, 2.9):
+            _, v = np.linalg.eigh(np.real(m) + c * np.imag(m))
+            d = v.T @ m @ v
+            if np.max(np.abs(d - np.diag(np.diag(d)))) < 1e-12:
+                return np.diag(d)
+    except np.linalg.LinAlgError:
+        pass
+    raise ReferenceUnavailable("eigenvalues of the magic-basis Gram matrix did not converge")
+
+
 def weyl_from_matrix(u: np.ndarray):
     """Canonical interaction vector of a 4x4 unitary, from the spectrum of the magic-basis Gram matrix.
 
@@ -118,7 +141,7 @@ def weyl_from_matrix(u: np.ndarray):
     su = u * np.exp(-1j * np.angle(det) / 4)
     ub = _MAGIC.conj().T @ su @ _MAGIC
     m = ub.T @ ub
-    ev = np.linalg.eigvals(m)
+    ev = _normal_eigvals(m)
     th = np.angle(ev) / 2  # each theta_j known mod pi, representative in (-pi/2, pi/2]
     n = int(round(float(np.sum(th)) / PI))
     th = list(th)
